@@ -38,6 +38,8 @@ func drawC01(t *rapid.T) polCase {
 		c.Prev = "edited"
 	case 4:
 		c.Prev = "copy"
+	case 5, 6:
+		c.Prev = "then-other"
 	}
 	return c
 }
@@ -79,6 +81,8 @@ func checkC01(raw json.RawMessage) (ev.Result, error) {
 	switch {
 	case c.Prev == "edited":
 		st.class("value-held-another-policy-before")
+	case c.Prev == "then-other":
+		st.class("other-policies-compiled-before-the-program-is-used")
 	case c.Prev == "copy":
 		st.class("architecture-given-by-a-copy-of-the-info-value")
 	case c.Prev != "" && c.Prev != p.Arch:
@@ -303,6 +307,9 @@ func drawC04(t *rapid.T) polCase {
 	if rapid.IntRange(0, 2).Draw(t, "preferX86") == 0 {
 		arch = "x86_64"
 	}
+	if rapid.IntRange(0, 9).Draw(t, "x32Table") == 0 {
+		arch = "x32" // the x32 table: audit architecture x86_64, every one of its numbers carries the x32 bit
+	}
 	prof := []gen.Profile{gen.Edge255, gen.Edge255, gen.Small, gen.CondHeavy, gen.NamesOnly, gen.Degenerate}[rapid.IntRange(0, 5).Draw(t, "profile")]
 	p := gen.Policy(t, arch, gen.Opts{Profile: prof})
 	if prof == gen.Edge255 {
@@ -434,6 +441,33 @@ func checkC04(raw json.RawMessage) (ev.Result, error) {
 	evs := gen.Events(p, c.Seed, gen.EventOpts{Foreign: true, X32: true, MaxNrs: 40, Consts: cp.consts})
 	own := oracle.ArchID(p.Arch)
 	x32bit := oracle.Const("__X32_SYSCALL_BIT")
+	if p.Arch == "x32" {
+		// the events a rule of this policy is written for (number | x32 bit), the same numbers without the bit, boundaries
+		st.class("policy-for-the-x32-table")
+		k := 0
+		for _, g := range p.Groups {
+			names := append([]string(nil), g.Names...)
+			for _, ce := range g.Conds {
+				names = append(names, ce.Name)
+			}
+			for _, n := range names {
+				if k++; k > 60 {
+					break
+				}
+				nr := uint32(oracle.Table("x32")[n])
+				for _, v := range []uint32{nr | x32bit, nr, nr | x32bit | 0x80000000} {
+					e := spec.Event{Arch: own, Nr: v}
+					for a := range e.Args {
+						e.Args[a] = gen.Boundary[(k+a)%len(gen.Boundary)]
+					}
+					evs = append(evs, e)
+				}
+			}
+		}
+		for _, v := range []uint32{0, 1, x32bit - 1, x32bit, x32bit + 1, 0xffffffff} {
+			evs = append(evs, spec.Event{Arch: own, Nr: v})
+		}
+	}
 	nt := 0
 	err = runEvents(p, cp, evs, hostOrder(), func(e spec.Event, want uint32, info model.Info) {
 		st.events++
